@@ -170,7 +170,9 @@ def run(ctx) -> None:
     r14_7(ctx)
     r14_8(ctx)
     r14_10(ctx)
+    r14_11(ctx)
     ctx.floor("registration_sites", 3)
+    ctx.floor("push_cells", 5)
     ctx.floor("unwind_scenarios", 312)
 
 
@@ -661,6 +663,82 @@ def r14_4(ctx) -> None:
     ctx.tables["enter_context"] = table
 
 
+# --------------------------------------------------------------------------- R14.11
+class _PushOps(_EnterOps):
+    """push(exit) for an object that has / has not __aexit__, __exit__ and is / is not callable: presence is asked
+    with hasattr / getattr-with-default / callable() or found out by AttributeError."""
+
+    def __init__(self, cm: str, has_aexit: bool, has_exit: bool, is_callable: bool):
+        super().__init__(cm, has_aexit, True, has_exit)
+        self.has = {"__aexit__": has_aexit, "__exit__": has_exit}
+        self.is_callable = is_callable
+
+    def raises(self, node, env):
+        if node.kind == "attr" and isinstance(node.ast, ast.Attribute) and node.ast.attr in self.has \
+                and not self.has[node.ast.attr] and isinstance(node.ast.value, ast.Name) and env.get(node.ast.value.id) == "CM":
+            return ("new", "AttributeError")
+        return None
+
+    def call(self, func, args, kwargs, node, env):
+        name = func.split(".")[-1]
+        if name == "hasattr" and len(args) == 2 and args[0] == "CM" and args[1] in self.has:
+            return self.has[args[1]]
+        if name == "getattr" and len(args) == 3 and args[0] == "CM" and args[1] in self.has:
+            return ("meth", "CM", args[1]) if self.has[args[1]] else args[2]
+        if name == "callable" and args == ["CM"]:
+            return self.is_callable
+        if name in ("TypeError", "ValueError"):
+            return ("new", name)
+        return super().call(func, args, kwargs, node, env)
+
+    def truth(self, v, env):
+        if isinstance(v, tuple) and v[:1] in (("meth",), ("awaitified",)):
+            return True
+        return UNKNOWN
+
+
+def r14_11(ctx) -> None:
+    """What push() registers for each kind of argument (the unwind table R14.2 takes the registered exits as given)."""
+    ctx.rule("R14.11", "push(exit): an object with __aexit__ is exited through it (also when it has __exit__ as well: the asynchronous "
+             "protocol wins, as in `async with` and enter_context), an object with __exit__ only through the awaitified __exit__, "
+             "any other callable through awaitify(exit); anything else is rejected and nothing is registered; exit is returned unchanged")
+    _derive_stack_attr(ctx)
+    u = ctx.unit("contextlib.ExitStack.push")
+    view = ctx.inlined(u)
+    cfg = cfg_of(view)
+    me, cm = u.param_names()[0], u.param_names()[1]
+    table = {}
+    cells = [("async exit (has __aexit__ only)", True, False, False, ("meth", "CM", "__aexit__")),
+             ("sync context manager (has __exit__ only)", False, True, False, ("awaitified", ("meth", "CM", "__exit__"))),
+             ("object with both __aexit__ and __exit__", True, True, False, ("meth", "CM", "__aexit__")),
+             ("plain callable", False, False, True, ("awaitified", "CM")),
+             ("neither an exit nor callable", False, False, False, None)]
+    for cell, has_aexit, has_exit, is_callable, want in cells:
+        ctx.count("push_cells")
+        ops = _PushOps(cm, has_aexit, has_exit, is_callable)
+        outs = Machine(cfg, ops, resolver=make_resolver(ctx, view, ops, skip=("awaitify",))).run({me: "SELF", cm: "CM"})
+        if not outs:
+            ctx.note("R14.11", u, f"[{cell}] could not be evaluated")
+            continue
+        for oc in outs:
+            regs = [r[0] for r in oc.env.get("@registered", ())]
+            got = f"{oc.terminal.kind}; registered={regs}; returned={oc.returned}"
+            table[cell] = got
+            if UNKNOWN in regs or any(r is UNKNOWN for r in regs):
+                ctx.note("R14.11", u, f"[{cell}] the registered value could not be evaluated")
+                continue
+            if want is None:
+                ok = oc.terminal.kind == "raise_exit" and not regs
+                what = "it is rejected and nothing is registered"
+            else:
+                # an awaitified coroutine method is the method itself to every caller
+                same = [r[1] if (r[:1] == ("awaitified",) and want[:1] == ("meth",)) else r for r in regs]
+                ok = oc.terminal.kind == "exit" and same == [want] and oc.returned == "CM"
+                what = f"exactly {want} is registered and the argument is returned unchanged"
+            ctx.check(ok, "R14.11", u, "push", f"[{cell}] {what}", witness=got)
+    ctx.tables["push"] = table
+
+
 # --------------------------------------------------------------------------- R14.5
 def _callback_runner(ctx):
     """The coroutine that ``callback()`` registers to run a plain callback as an exit: the
@@ -722,14 +800,9 @@ def _r14_5_closure(ctx, u, reg) -> None:
             ok = wrapped and len(call.args) == 1 and isinstance(call.args[0], ast.Starred) and norm(call.args[0].value) == va \
                 and va not in own and kw not in own \
                 and len(call.keywords) == 1 and call.keywords[0].arg is None and norm(call.keywords[0].value) == kw
-            if not ok and not call.args and not call.keywords and isinstance(f, ast.Call) \
-                    and ctx.pkg.resolve_expr_global(m.module, f.func).qual == "functools.partial" and f.args:
+            if not ok and not call.args and not call.keywords and isinstance(f, ast.Call):
                 # the arguments were bound beforehand: ``bound = partial(awaitify(callback), *args, **kwargs)``
-                g = f.args[0]
-                ok = isinstance(g, ast.Call) and ctx.pkg.resolve_expr_global(m.module, g.func).qual.endswith("_core.awaitify") \
-                    and len(g.args) == 1 and norm(g.args[0]) == cbp and len(f.args) == 2 and isinstance(f.args[1], ast.Starred) \
-                    and norm(f.args[1].value) == va and len(f.keywords) == 1 and f.keywords[0].arg is None \
-                    and norm(f.keywords[0].value) == kw
+                ok = _binds_callback(ctx, m, f, cbp, va, kw)
         ctx.check(bool(ok), "R14.5", u, awaits[0] if awaits else u.node.name,
                   "the (awaitified) callback is awaited exactly once with *args and **kwargs unchanged")
         rets = [n for n in nodes if n.kind == "return"]
@@ -774,16 +847,28 @@ def _r14_5_bound_callback(ctx, m, r, inner, e) -> None:
     cbp = m.param_names()[1]
     va = m.node.args.vararg.arg if m.node.args.vararg else None
     kw = m.node.args.kwarg.arg if m.node.args.kwarg else None
-    ok = False
-    if isinstance(inner, ast.Call) and ctx.pkg.resolve_expr_global(m.module, inner.func).qual in ("functools.partial",) and inner.args:
-        f = inner.args[0]
-        wrapped = isinstance(f, ast.Call) and ctx.pkg.resolve_expr_global(m.module, f.func).qual.endswith("_core.awaitify") \
-            and len(f.args) == 1 and norm(f.args[0]) == cbp
-        stars = [a for a in inner.args[1:]]
-        ok = wrapped and len(stars) == 1 and isinstance(stars[0], ast.Starred) and norm(stars[0].value) == va \
-            and len(inner.keywords) == 1 and inner.keywords[0].arg is None and norm(inner.keywords[0].value) == kw
+    ok = _binds_callback(ctx, m, inner, cbp, va, kw)
     ctx.check(bool(ok), "R14.5", m, r, "callback() binds *args and **kwargs unchanged to the (awaitified) callback",
               node=r, witness=norm(e))
+
+
+def _binds_callback(ctx, m, inner, cbp, va, kw) -> bool:
+    """``partial(awaitify(cb), *args, **kwargs)`` or, equivalently, ``awaitify(partial(cb, *args, **kwargs))``: awaitify looks
+    through a partial of a coroutine function and detects every other awaitable result at the call, so both call
+    ``cb(*args, **kwargs)`` once and await what it returns."""
+    def qual(x):
+        return ctx.pkg.resolve_expr_global(m.module, x.func).qual if isinstance(x, ast.Call) else ""
+
+    def is_awaitify(x):
+        return qual(x).endswith("_core.awaitify") and len(x.args) == 1 and not x.keywords
+
+    def is_binding(x):
+        return qual(x) == "functools.partial" and len(x.args) == 2 and isinstance(x.args[1], ast.Starred) \
+            and norm(x.args[1].value) == va and len(x.keywords) == 1 and x.keywords[0].arg is None and norm(x.keywords[0].value) == kw
+
+    if is_binding(inner) and is_awaitify(inner.args[0]) and norm(inner.args[0].args[0]) == cbp:
+        return True
+    return bool(is_awaitify(inner) and is_binding(inner.args[0]) and norm(inner.args[0].args[0]) == cbp)
 
 
 def _r14_5_factory(ctx, factory, w, reg, arg, fparam) -> None:
@@ -876,14 +961,7 @@ def r14_5(ctx) -> None:
         ctx.check(bool(outer_ok), "R14.5", m, r, f"the bound callback is registered through {runner_name} (cannot suppress)",
                   node=r, witness=norm(e))
         inner = e.args[1] if outer_ok else None
-        ok = False
-        if inner is not None and is_partial(inner):
-            f = inner.args[0]
-            wrapped = isinstance(f, ast.Call) and ctx.pkg.resolve_expr_global(m.module, f.func).qual.endswith("_core.awaitify") \
-                and len(f.args) == 1 and norm(f.args[0]) == cbp
-            stars = [a for a in inner.args[1:]]
-            ok = wrapped and len(stars) == 1 and isinstance(stars[0], ast.Starred) and norm(stars[0].value) == va \
-                and len(inner.keywords) == 1 and inner.keywords[0].arg is None and norm(inner.keywords[0].value) == kw
+        ok = inner is not None and _binds_callback(ctx, m, inner, cbp, va, kw)
         ctx.check(bool(ok), "R14.5", m, r, "callback() binds *args and **kwargs unchanged to the (awaitified) callback",
                   node=r, witness=norm(e))
 
